@@ -201,12 +201,14 @@ example : ValidTables sym1 ∧ 1 ≤ sym1.size ∧ 1 ≤ sym1.dim := ⟨sym1_val
 
 /-- **cover_for_table_compat.**  If the coset table is inverse-consistent with images in range
     (`get(c,g) = r ⇒ r < len ∧ get(r,-g) = c`), the edge words on the two sides of every edge are
-    mutually inverse, and no `unwrap` in `trace_word` hits `None` (`allTracesDefined`), then the
+    formal inverses of each other — or, on a mirror `op_i d = d` (one word for both sides), the
+    word traced twice returns to every row, i.e. the table satisfies the relator `w²` — and no
+    `unwrap` in `trace_word` hits `None` (`allTracesDefined`), then the
     sheet map of `cover_for_table` is compatible, the model returns and the result is a covering
     with `table.len()` sheets in the sense of `cover_is_covering`. -/
 theorem cover_for_table_compat (s : DSymData) (hs : ValidTables s) (hsz : 1 ≤ s.size) (hdim : 1 ≤ s.dim)
     (t : Table) (hlen : 1 ≤ t.len) (e2w : EdgeWords)
-    (ht : t.InvConsistent) (he : EdgeWordsInverse s e2w) (hd : allTracesDefined s t e2w = true) :
+    (ht : t.InvConsistent) (he : EdgeWordsOk s t e2w) (hd : allTracesDefined s t e2w = true) :
     SheetCompat s.dset t.len (sheetMap t e2w) ∧
     ∃ c, coverForTable s t e2w = .ok c ∧ c.size = t.len * s.size ∧ c.dim = s.dim ∧ ValidTables c ∧
       (∀ i d, i ≤ s.dim → 1 ≤ d → d ≤ t.len * s.size →
@@ -218,7 +220,7 @@ theorem cover_for_table_compat (s : DSymData) (hs : ValidTables s) (hsz : 1 ≤ 
   exact ⟨c, by rw [coverForTable_eq_cover hd]; exact hc, hsize, hdim', hct, hproj⟩
 
 /-- the one-row table without generators (trivial group) and no edge words -/
-example : (⟨0, #[#[-1]]⟩ : Table).InvConsistent ∧ EdgeWordsInverse sym1 [] ∧
+example : (⟨0, #[#[-1]]⟩ : Table).InvConsistent ∧ EdgeWordsOk sym1 ⟨0, #[#[-1]]⟩ [] ∧
     allTracesDefined sym1 ⟨0, #[#[-1]]⟩ [] = true := by
   refine ⟨?_, ?_, by decide⟩
   · intro c g r hc hg
@@ -248,6 +250,6 @@ example : (⟨0, #[#[-1]]⟩ : Table).InvConsistent ∧ EdgeWordsInverse sym1 []
         rw [hnone] at hg
         cases hg
   · intro i d _ _ _
-    rfl
+    exact Or.inl rfl
 
 end DSymVerif.C05
